@@ -241,6 +241,8 @@ def call_builtin(I, name, args, kwargs, env):
         return I.builtin_open(args, kwargs)
     if name == 'type':
         (x,) = args
+        if isinstance(x, SObj) and getattr(x, 'cls_alt', None):
+            raise Unsupported('type() of an object whose class is symbolic')
         if isinstance(x, SObj):
             return x.cls
         for pyt, nm in ((type(None), 'NoneType'), (bool, 'bool'), (int, 'int'), (str, 'str'), (list, 'list'), (dict, 'dict'), (tuple, 'tuple'), (set, 'set')):
@@ -350,6 +352,14 @@ def isinstance_one(I, v, ty):
             v.attrs[key] = I.fresh(f'isinstance({v.tag})', 'bool')
         return v.attrs[key]
     if isinstance(ty, ClassInfo):
+        if isinstance(v, SObj) and getattr(v, 'cls_alt', None):
+            # an object whose class is one of several (which one: an unknown of the element): isinstance is the disjunction
+            from .interp import _or
+            acc = False
+            for c, guard in v.cls_alt:
+                if c.is_subclass_of(ty):
+                    acc = _or(acc, guard)
+            return acc
         if isinstance(v, SObj):
             return v.cls.is_subclass_of(ty)
         if isinstance(v, (EnumVal, SEnum)):
@@ -511,10 +521,10 @@ def call_method(I, recv, name, args, kwargs):
             I.note_write(recv, f'set.{name}')
             if isinstance(recv, set):
                 if name == 'update':
-                    other = args[0]
-                    if isinstance(other, SSet):
-                        raise Unsupported('concrete set updated with symbolic set (use a fresh symbolic set)')
-                    recv.update(I.iterate(other) if not isinstance(other, (set, frozenset)) else other)
+                    for other in args:
+                        if isinstance(other, SSet):
+                            raise Unsupported('concrete set updated with symbolic set (use a fresh symbolic set)')
+                        recv.update(I.iterate(other) if not isinstance(other, (set, frozenset)) else other)
                 elif name == 'add':
                     if isinstance(args[0], SEnum) or is_sym(args[0]):
                         raise Unsupported('add symbolic element to concrete set')
@@ -529,9 +539,10 @@ def call_method(I, recv, name, args, kwargs):
                     recv.clear()
                 return None
             if name == 'update':
-                other = I.to_sset(args[0], recv.cls)
-                for m in recv.bits:
-                    recv.bits[m] = _or(recv.bits[m], other.bits[m])
+                for a in args:
+                    other = I.to_sset(a, recv.cls)
+                    for m in recv.bits:
+                        recv.bits[m] = _or(recv.bits[m], other.bits[m])
                 return None
             if name == 'add':
                 x = args[0]
